@@ -66,6 +66,8 @@
 (declare-fun CIds (Iface Int Int Int Str) Slice_BS)
 ;; spec CMsgs (Iface Int Int Int Str) Slice_Int : []*interfaces.CommitMessage
 (declare-fun CMsgs (Iface Int Int Int Str) Slice_Int)
+;; spec PPAt (Iface Int Int) Int : *interfaces.PreprepareMessage
+(declare-fun PPAt (Iface Int Int) Int)
 ;; spec VCMsgs (Iface Int Int Int) Slice_Int : []*interfaces.ViewChangeMessage
 (declare-fun VCMsgs (Iface Int Int Int) Slice_Int)
 ;; section quorum_axioms2
